@@ -2162,6 +2162,14 @@ func (c *Conn) handleChangeCipherSpecRecord(
 		return false
 	}
 
+	// ChangeCipherSpec carries no authentication and only ever ends the handshake's
+	// unprotected epoch. Honoured for later epochs it lets anybody walk the read epoch
+	// (and a replay window per epoch) up to 65535 and around to 0, after which genuine
+	// records are held back as belonging to a future epoch.
+	if prepared.header.Epoch != c.handshakeConfig.InitialEpoch {
+		return false
+	}
+
 	newRemoteEpoch := prepared.header.Epoch + 1
 	c.log.Tracef("%s: <- ChangeCipherSpec (epoch: %d)", srvCliStr(common.IsClient), newRemoteEpoch)
 	if common.RemoteEpoch()+1 != newRemoteEpoch {
